@@ -62,7 +62,7 @@ FLUFL_BIT = 0x40000 if V < (3, 8) else 0x400000
 
 
 def interior_lnotab_entry(c):
-    """<=3.9: does co_lnotab have an entry whose address lies inside a multi-unit instruction?"""
+    """<=3.9: does co_lnotab have a line-changing entry whose address lies inside a multi-unit instruction?"""
     if O.V310:
         return False
     starts = set(f for f, _ in O.folded(c))
@@ -70,9 +70,14 @@ def interior_lnotab_entry(c):
     tab = c.co_lnotab
     for i in range(0, len(tab), 2):
         addr += tab[i]
-        if addr not in starts and addr < len(c.co_code):
+        if tab[i + 1] != 0 and addr not in starts and addr < len(c.co_code):
             return True
     return False
+
+
+def only_addresses_moved(t1, t2):
+    """the two tables have the same rows except for the byte deltas (an entry moved to another address)"""
+    return len(t1) == len(t2) and t1[1::2] == t2[1::2] and sum(t1[0::2]) == sum(t2[0::2])
 
 
 def c01_classify(c, c2):
@@ -95,7 +100,7 @@ def c01_classify(c, c2):
         k = get(c, p)
         k2 = get(c2, p) if all('len' not in a for a in ats) else None
         key = 'C01:roundtrip-differs:' + ','.join(sorted(ats))
-        if ats == ['co_lnotab'] and interior_lnotab_entry(k) and k2 is not None and \
+        if ats == ['co_lnotab'] and interior_lnotab_entry(k) and k2 is not None and only_addresses_moved(k.co_lnotab, k2.co_lnotab) and \
                 [x[2] for x in O.reading(k)] == [x[2] for x in O.reading(k2)]:
             key = 'C01:lnotab-entry-inside-instruction'
         out.append((key, p, {'attrs': ats, 'orig': ser.s_code(k)[:2000], 'got': ser.s_code(k2)[:2000] if k2 else None}))
